@@ -223,8 +223,15 @@ pub fn run(opts: &Opts) -> i32 {
   }
   // (2) the empty batch
   if opts.shard == 0 { run_case(&vec![], &mut rng, &mut out, "empty_batch", &keys, &unknown); out.nontrivial(1); }
+  // (2b) every batch length from 0 to 2100 once (buffer-size boundaries of any chunked writer fall in here)
+  for len in 0..=2100usize {
+    if (len as u64) % opts.nshards != opts.shard { continue; }
+    let evs: Vec<Event> = (0..len).map(|_| { let k = *rng.pick(&keys); if rng.chance(1, 2) { Pressed(k) } else { Released(k) } }).collect();
+    out.nontrivial(hash64(&(len, 77u8)));
+    run_case(&evs, &mut rng, &mut out, "every_length_0_to_2100", &keys, &unknown);
+  }
   // (3) random batches of any length
-  let n = opts.num("random", if thorough { 60000 } else { 6000 });
+  let n = opts.num("random", if thorough { 300000 } else { 6000 });
   for _ in 0..n {
     let len = match rng.below(10) { 0..=5 => rng.range(1, 8), 6..=8 => rng.range(9, 200), _ => rng.range(201, 2000) };
     let evs: Vec<Event> = (0..len).map(|_| { let k = *rng.pick(&keys); if rng.chance(1, 2) { Pressed(k) } else { Released(k) } }).collect();
